@@ -18,9 +18,9 @@ def toInt (w : Nat) : Int := if w < 32768 then (w : Int) else (w : Int) - 65536
 /-- the 16-bit pattern of an integer already known to be in range (struct.pack) -/
 def pack (n : Int) : Nat := if n < 0 then (n + 65536).toNat else n.toNat
 
-/-- `Integer.from_int(in_int, unsigned)` -/
+/-- `Integer.from_int(in_int, unsigned)`: range check on the number as given, negatives are then
+    stored as their two's complement (`pack`) -/
 def fromInt (n : Int) (unsigned : Bool) : R Nat :=
-  let n := if unsigned && decide (n < 0) then n + 65536 else n
   let maxint : Int := if unsigned then 65535 else 32767
   if -32768 ≤ n ∧ n ≤ maxint then .ok (pack n) else .error overflow
 
@@ -97,9 +97,10 @@ def not_ (a : Nat) : R Nat := fromInt (-(toInt a) - 1) false
 def and_ (a b : Nat) : R Nat := fromInt (Int.ofNat (a &&& b)) true
 def or_ (a b : Nat) : R Nat := fromInt (Int.ofNat (a ||| b)) true
 def xor_ (a b : Nat) : R Nat := fromInt (Int.ofNat (a ^^^ b)) true
-def eqv_ (a b : Nat) : R Nat := fromInt (-(Int.ofNat (a ^^^ b)) - 1) true
-/-- `(~a) | b` on Python ints, a, b ≥ 0:  equals `-((a &&& ~~~b)) - 1` = ~(a & ~b) -/
-def imp_ (a b : Nat) : R Nat := fromInt (-(Int.ofNat (a &&& (65535 - b))) - 1) true
+def eqv_ (a b : Nat) : R Nat := fromInt ((-(Int.ofNat (a ^^^ b)) - 1) % 65536) true
+/-- `((~a) | b) & 0xffff` on Python ints, a, b ≥ 0:  `(~a)|b` equals `-((a &&& ~~~b)) - 1` = ~(a & ~b);
+    Python's `& 0xffff` of a negative int is the residue mod 65536 -/
+def imp_ (a b : Nat) : R Nat := fromInt ((-(Int.ofNat (a &&& (65535 - b))) - 1) % 65536) true
 
 /-! ### the integer FOR loop of interpreter.py (`for_` / `iterate_loop`) -/
 
